@@ -745,6 +745,9 @@ impl ExactSizeIterator for BitVectorIntoIter {
 impl Iterator for BitVectorIntoIter {
     type Item = bool;
     fn next(&mut self) -> Option<Self::Item> {
+        if self.i >= self.bv.n_bits {
+            return None;
+        }
         self.i += 1;
         self.bv.get(self.i - 1)
     }
